@@ -48,7 +48,7 @@ def ref_rule(msg):
     return v if v <= U32 else None
 
 
-_UINT = re.compile(r"^[0-9]+$")
+_UINT = re.compile(r"^([0-9]+)(?:u32)?$")
 
 
 class KV:
@@ -146,8 +146,8 @@ class Stmt:
             if k.key == "ref" and k.mod == "":
                 if k.value is None:
                     continue   # shorthand `ref`: captures a variable; the property speaks of `ref = ...` only
-                if _UINT.match(k.value) and int(k.value) <= U32:
-                    ref_state = ("literal", int(k.value))
+                if _UINT.match(k.value) and int(_UINT.match(k.value).group(1)) <= U32:
+                    ref_state = ("literal", int(_UINT.match(k.value).group(1)))
                 else:
                     ref_state = ("other",)
                 break
